@@ -1,6 +1,8 @@
 package gateway
 
 import (
+	"strings"
+
 	hydrapb "github.com/hydraide/hydraide/sdk/go/hydraidego/v3/hydraidepbgo"
 )
 
@@ -146,7 +148,7 @@ func indexableHint(f *hydrapb.TreasureFilter) (BucketHint, bool) {
 		return BucketHint{}, false
 	}
 	path := f.GetBytesFieldPath()
-	if path == "" {
+	if path == "" || !isPlainFieldPath(path) {
 		return BucketHint{}, false
 	}
 	switch f.GetOperator() {
@@ -185,6 +187,20 @@ func indexableHint(f *hydrapb.TreasureFilter) (BucketHint, bool) {
 		return BucketHint{FieldPath: path, Op: HintIn, Values: vals}, true
 	}
 	return BucketHint{}, false
+}
+
+// isPlainFieldPath reports whether every segment of a dotted path is a
+// plain map key. The filter evaluator gives "Field[*]" (any-match over a
+// slice) and "#len" (length pseudo-field) a special meaning that the
+// bucket's extractFieldByPath does not implement, so such legs must stay
+// on the full-scan route.
+func isPlainFieldPath(path string) bool {
+	for _, part := range strings.Split(path, ".") {
+		if part == "#len" || strings.HasSuffix(part, "[*]") {
+			return false
+		}
+	}
+	return true
 }
 
 // compareValueToAny pulls the set field of the CompareValue oneof and
